@@ -70,7 +70,9 @@ theorem convertValue_cli_eq : ∀ v : Value, valueAll (fun v => !v.isZone) v = t
     simp [convertValue, convertPairs_cli_eq ps h.2]
   | .zone _ _ _, h => by simp [valueAll, Value.isZone] at h
   | .holo _, _ => by simp [convertValue]
-  | .pydict _, _ => by simp [convertValue]
+  | .pydict ps, h => by
+    simp only [valueAll, Bool.and_eq_true] at h
+    simp [convertValue, convertPairs_cli_eq ps h.2]
 theorem convertItems_cli_eq : ∀ xs : List Value, valueAllL (fun v => !v.isZone) xs = true →
     convertItems false xs = convertItems true xs
   | [], _ => by simp [convertItems]
@@ -198,64 +200,47 @@ theorem jsonableP_append (a b : List (Str × PyVal)) : jsonableP (a ++ b) = (jso
   | nil => simp [jsonableP]
   | cons x xs ih => obtain ⟨k, v⟩ := x; simp [jsonableP, ih, Bool.and_assoc]
 
-/-- values the MCP converter turns into something `json.dumps` accepts: no plain dict (nested META block) -/
-def Value.mcpOk (v : Value) : Bool := !v.isPyDict
-
 mutual
-theorem convertValue_jsonable : ∀ v : Value, valueAll Value.mcpOk v = true → jsonable (convertValue true v) = true
-  | .null, _ => by simp [convertValue, jsonable]
-  | .bool _, _ => by simp [convertValue, jsonable]
-  | .int _, _ => by simp [convertValue, jsonable]
-  | .float _, _ => by simp [convertValue, jsonable]
-  | .str _, _ => by simp [convertValue, jsonable]
-  | .list xs, h => by
-    simp only [valueAll, Bool.and_eq_true] at h
-    simp only [convertValue, jsonable]; exact convertItems_jsonable xs h.2
-  | .imap ps, h => by
-    simp only [valueAll, Bool.and_eq_true] at h
-    simp only [convertValue, jsonable]; exact jsonableP_dictOf _ (convertPairs_jsonable ps h.2)
-  | .zone c t f, _ => by cases t <;> simp [convertValue, jsonable, jsonableP, optStr]
-  | .holo _, _ => by simp [convertValue, jsonable]
-  | .pydict _, h => by simp [valueAll, Value.mcpOk, Value.isPyDict] at h
-theorem convertItems_jsonable : ∀ xs : List Value, valueAllL Value.mcpOk xs = true → jsonableL (convertItems true xs) = true
-  | [], _ => by simp [convertItems, jsonableL]
-  | x :: xs, h => by
-    simp only [valueAllL, Bool.and_eq_true] at h
-    simp [convertItems, jsonableL, convertValue_jsonable x h.1, convertItems_jsonable xs h.2]
-theorem convertPairs_jsonable : ∀ ps : List (Str × Value), valueAllP Value.mcpOk ps = true → jsonableP (convertPairs true ps) = true
-  | [], _ => by simp [convertPairs, jsonableP]
-  | (k, v) :: ps, h => by
-    simp only [valueAllP, Bool.and_eq_true] at h
-    simp [convertPairs, jsonableP, convertValue_jsonable v h.1, convertPairs_jsonable ps h.2]
+theorem convertValue_jsonable : ∀ v : Value, jsonable (convertValue true v) = true
+  | .null => by simp [convertValue, jsonable]
+  | .bool _ => by simp [convertValue, jsonable]
+  | .int _ => by simp [convertValue, jsonable]
+  | .float _ => by simp [convertValue, jsonable]
+  | .str _ => by simp [convertValue, jsonable]
+  | .list xs => by simp only [convertValue, jsonable]; exact convertItems_jsonable xs
+  | .imap ps => by simp only [convertValue, jsonable]; exact jsonableP_dictOf _ (convertPairs_jsonable ps)
+  | .zone c t f => by cases t <;> simp [convertValue, jsonable, jsonableP, optStr]
+  | .holo _ => by simp [convertValue, jsonable]
+  | .pydict ps => by simp only [convertValue, jsonable]; exact jsonableP_dictOf _ (convertPairs_jsonable ps)
+theorem convertItems_jsonable : ∀ xs : List Value, jsonableL (convertItems true xs) = true
+  | [] => by simp [convertItems, jsonableL]
+  | x :: xs => by simp [convertItems, jsonableL, convertValue_jsonable x, convertItems_jsonable xs]
+theorem convertPairs_jsonable : ∀ ps : List (Str × Value), jsonableP (convertPairs true ps) = true
+  | [] => by simp [convertPairs, jsonableP]
+  | (k, v) :: ps => by simp [convertPairs, jsonableP, convertValue_jsonable v, convertPairs_jsonable ps]
 end
 
 mutual
-theorem nodeEntry_jsonable : ∀ n : Node, nodeValuesAll Value.mcpOk n = true → jsonableP (nodeEntry true n) = true
-  | .assign _ k v, h => by
-    simp only [nodeValuesAll] at h
-    simp [nodeEntry, jsonableP, convertValue_jsonable v h]
-  | .block _ k cs, h => by
-    simp only [nodeValuesAll] at h
-    simp [nodeEntry, jsonableP, jsonable, jsonableP_dictOf _ (nodeEntries_jsonable cs h)]
-  | .sect _ _ _ _, _ => by simp [nodeEntry, jsonableP]
-  | .comment _ _, _ => by simp [nodeEntry, jsonableP]
-theorem nodeEntries_jsonable : ∀ ns : List Node, nodeValuesAllL Value.mcpOk ns = true → jsonableP (nodeEntries true ns) = true
-  | [], _ => by simp [nodeEntries, jsonableP]
-  | n :: ns, h => by
-    simp only [nodeValuesAllL, Bool.and_eq_true] at h
-    simp [nodeEntries, jsonableP_append, nodeEntry_jsonable n h.1, nodeEntries_jsonable ns h.2]
+theorem nodeEntry_jsonable : ∀ n : Node, jsonableP (nodeEntry true n) = true
+  | .assign _ k v => by simp [nodeEntry, jsonableP, convertValue_jsonable v]
+  | .block _ k cs => by simp [nodeEntry, jsonableP, jsonable, jsonableP_dictOf _ (nodeEntries_jsonable cs)]
+  | .sect _ _ _ _ => by simp [nodeEntry, jsonableP]
+  | .comment _ _ => by simp [nodeEntry, jsonableP]
+theorem nodeEntries_jsonable : ∀ ns : List Node, jsonableP (nodeEntries true ns) = true
+  | [] => by simp [nodeEntries, jsonableP]
+  | n :: ns => by simp [nodeEntries, jsonableP_append, nodeEntry_jsonable n, nodeEntries_jsonable ns]
 end
 
-theorem astToDict_jsonable (d : Doc) (h : docValuesAll Value.mcpOk d = true) : jsonable (astToDict true d) = true := by
-  simp only [docValuesAll, Bool.and_eq_true] at h
+/-- `json.dumps` accepts the MCP conversion of EVERY document (since fixes 45b8e9f and fd2ad16 no AST object survives `_convert_value`). -/
+theorem astToDict_jsonable (d : Doc) : jsonable (astToDict true d) = true := by
   simp only [astToDict, jsonable]
   apply jsonableP_dictOf
   rw [jsonableP_append]
   simp only [Bool.and_eq_true]
-  refine ⟨?_, nodeEntries_jsonable _ h.2⟩
+  refine ⟨?_, nodeEntries_jsonable _⟩
   unfold metaEntries
   split
   · simp [jsonableP]
-  · simp [jsonableP, jsonable, jsonableP_dictOf _ (convertPairs_jsonable _ h.1)]
+  · simp [jsonableP, jsonable, jsonableP_dictOf _ (convertPairs_jsonable _)]
 
 end Octave
